@@ -79,7 +79,7 @@ def make_case(tier, seed, index):
         _, ci, fi, rep = c
         fam, var, tr = D.CONFIGS[ci]
         fill, fseed = FILLS[fi]
-        return {"kind": "bulk", "family": fam, "variant": var, "transport": tr, "fill": fill,
+        return {"kind": "bulk", "warn_error": index % 4 == 1, "family": fam, "variant": var, "transport": tr, "fill": fill,
                 "seed": (fseed * 31 + rep * 977 + seed * 131) & 0xFFFF, "k": (index * 40503 + seed) & 0xFFFF}
     if c[0] == "eslen":
         return {"kind": "eslen", "len": c[1], "seed": (c[2] * 101 + c[1] + seed) & 0xFFFF}
